@@ -449,6 +449,9 @@ func (e *Explorer) runStable(sc *Scenario, prefix []int, expect [][]string) (exe
 			return r, true
 		}
 		e.Stats.Retries++
+		if e.Stats.Retries <= 5 {
+			fmt.Printf("RETRY %s %v: %s\n", sc.Name, prefix, r.ctl.divMsg)
+		}
 		// a diverged execution is still a real execution: judge it
 		e.judge(sc, r, true)
 	}
